@@ -51,11 +51,27 @@ type Trans struct {
 	// interleave: the step or request that runs while (Ctrl, ID) is held before its (K+1)-th store write
 	Ctrl2 string `json:"ctrl2,omitempty"`
 	ID2   string `json:"id2,omitempty"`
+	// Map: iteration start offsets for the steered map iterations of a step (offset i applies to the i-th map iteration
+	// of the step inside onos-config's controllers / northbound / utils; empty = every map in insertion order)
+	Map []uint8 `json:"map,omitempty"`
+}
+
+// stepT runs a step transition with its map-order deviation, if any.
+func (w *World) stepT(t Trans) StepResult {
+	if len(t.Map) == 0 {
+		return w.Step(t.Ctrl, t.ID)
+	}
+	var r StepResult
+	withMapOrder(t.Map, func() { r = w.Step(t.Ctrl, t.ID) })
+	return r
 }
 
 func (t Trans) String() string {
 	switch t.Kind {
 	case "step":
+		if len(t.Map) > 0 {
+			return fmt.Sprintf("%s(%s)~map%v", t.Ctrl, t.ID, t.Map)
+		}
 		return fmt.Sprintf("%s(%s)", t.Ctrl, t.ID)
 	case "crash":
 		return fmt.Sprintf("crash@%d:%s(%s)", t.K, t.Ctrl, t.ID)
@@ -226,6 +242,8 @@ type Explorer struct {
 	out       map[uint64][]absEdge
 	terminals hashSet
 	Splits    int // split steps: release transitions executed
+	// MapDeviations: steps re-executed with another map iteration order
+	MapDeviations int
 	// realized is the schedule the last RealizeExact call really executed (blockers and pulled-forward steps included)
 	realized []Trans
 }
@@ -527,6 +545,41 @@ func (x *Explorer) Run() {
 					queues := enqueue(sc.Mode, dequeue(s.queues, tr), res.Tokens)
 					add(tr, &res, queues, bump(s.env))
 				}
+				// 1m. map iteration order is the program's, not the scheduler's: the same step again with one of its
+				// map iterations (inside onos-config's own functions, >= 2 entries) started at another entry
+				if sc.MapOrderDeviations && res.Panic == "" {
+					w.Restore(s.snap)
+					sites := withMapOrder(nil, func() { _ = w.Step(tr.Ctrl, tr.ID) })
+					for i, site := range sites {
+						if site.Len < 2 || i >= 24 {
+							continue
+						}
+						maxOff := site.Len - 1
+						if maxOff > 3 {
+							maxOff = 3
+						}
+						for o := 1; o <= maxOff; o++ {
+							offs := make([]uint8, i+1)
+							offs[i] = uint8(o)
+							mt := tr
+							mt.Map = offs
+							w.Restore(s.snap)
+							mres := w.stepT(mt)
+							x.MapDeviations++
+							if mres.Panic != "" {
+								continue
+							}
+							if sc.Mode == QAny {
+								if mres.Effects == 0 {
+									continue
+								}
+								add(mt, &mres, map[string][]string{}, bump(s.env))
+							} else {
+								add(mt, &mres, enqueue(sc.Mode, dequeue(s.queues, tr), mres.Tokens), bump(s.env))
+							}
+						}
+					}
+				}
 				// 1a. split this step: hold it before its (k+1)-th possibly effectful call
 				if s.env.Held == "" && s.env.Holds < sc.HoldBudget && res.Effects > 0 && res.Panic == "" {
 					// k = 0 (parked before its first call, nothing read yet) is the same as not having started
@@ -684,7 +737,7 @@ func (x *Explorer) ReplayTrace(tr []Trans, each func(i int, t Trans, res *StepRe
 		var res *StepResult
 		switch t.Kind {
 		case "step":
-			r := w.Step(t.Ctrl, t.ID)
+			r := w.stepT(t)
 			res = &r
 		case "hold":
 			heldBegin = w.Snapshot()
@@ -944,7 +997,7 @@ func (x *Explorer) RealizeExact(tr []Trans, drain bool, after func(i int, t Tran
 				res = &r
 				queues = enqueue(QExact, queues, r.Tokens)
 			default:
-				r := w.Step(t.Ctrl, t.ID)
+				r := w.stepT(t)
 				res = &r
 				queues = enqueue(QExact, queues, r.Tokens)
 			}
